@@ -254,6 +254,23 @@ prop("C09", "TestC09", "exploration",
      UD_GEN + "; non-trivial = >= 2 queries and some non-empty bin; distinct = hash of the case",
      q, t, required_labels=["queries>=2", "table", "dist-push"])
 
+q, t = tiers(4, 150, 16, 1500, floor_q=100, floor_t=1000, q_timeout=400)
+prop("C19", "TestC19", "fault_enumeration",
+     "For 14 exported entry points (snps, variants, sam variants each with and without --aggregate; toMultiAlign with and without --wrap; closest, closest -n, "
+     "closest -n --table; updown list; topranking list and --table) and rapid-generated valid inputs, a counting io.Writer first records the number N of "
+     "Write calls of the fault-free run (which must succeed); then for EVERY k in 1..N the run is repeated with the k-th Write failing once, and again "
+     "with every Write from the k-th on failing: the call must return a non-nil error, within 10 s, without panicking. Process level (binary built from "
+     "the tree): every command with -o /dev/full or stdout on /dev/full, `toPairAlign -o stdout >/dev/full`, and toPairAlign with one query's "
+     "output file pre-placed as a symlink to /dev/full must exit non-zero.",
+     "Fault points are enumerated completely per input; inputs are generated. Close() errors are not injected (os.File writes are unbuffered, so ENOSPC surfaces on Write).",
+     "fault injection: exhaustive enumeration of write-fault points per generated input (rapid), in-process failing io.Writer + process-level /dev/full",
+     "inputs from the C03/C04/C01/C06/C08 generators (>= 3 output rows for snps); coverage.evaluations counts injected-fault executions (coverage.cases = generated inputs); "
+     "non-trivial = an input whose run performs >= 2 writes (faults after the header), and every process-level /dev/full run; distinct = hash of the case",
+     q, t, need_bin=True,
+     required_labels=["entry:snps", "entry:snps-aggregate", "entry:variants", "entry:variants-aggregate", "entry:sam-variants", "entry:sam-variants-aggregate",
+                      "entry:toMultiAlign", "entry:toMultiAlign-wrap", "entry:closest", "entry:closestN", "entry:closestN-table", "entry:updown-list",
+                      "entry:topranking", "entry:topranking-table", "proc:toPairAlign-stdout", "proc:toPairAlign-symlink"])
+
 NOT_CLAIMED = {}
 
 
